@@ -980,6 +980,8 @@ func (c *CharSet) addLowercase() {
 	if c.anything {
 		return
 	}
+	// lower-case the members, not a synthetic exclusion (see denormalize)
+	c.denormalize()
 	toAdd := []SingleRange{}
 	for i := 0; i < len(c.ranges); i++ {
 		r := c.ranges[i]
